@@ -321,8 +321,15 @@ pub fn op_component(ctx: &mut Ctx, op: &Value, ev: &mut Map<String, Value>) {
             let rt = custom_text(&json!({"chars": op.get("r").cloned().unwrap_or(json!([]))}));
             let qt = custom_text(&json!({"chars": op.get("q").cloned().unwrap_or(json!([]))}));
             let (nr, nq) = (rt.chars.len(), qt.chars.len());
-            let mut rt = rt;
-            let mut qt = qt;
+            // the character classes the crate itself assigns in the given language (the gates see tokenised words)
+            let (mut rt, mut qt) = if op.get("lang").is_some() {
+                let code = get_s(op, "lang").to_string();
+                ctx.langs_seen.insert(code.clone());
+                let lang = ctx.comp.lang(&code);
+                (rt.set_char_classes(lang), qt.set_char_classes(lang))
+            } else {
+                (rt, qt)
+            };
             rt.words = vec![WordShape::new(nr)];
             let mut qw = WordShape::new(nq);
             qw.fin = op.get("qfin").and_then(|x| x.as_bool()).unwrap_or(false);
